@@ -39,7 +39,7 @@ ASSUMPTIONS = [
     "lines the reported number is N+1 (the line that could not be read); stated as lineno = #next - #back",
 ]
 TIME_LIMIT = {"quick": 900, "thorough": 5400}
-PER_LOAD_LIMIT = 60
+PER_LOAD_LIMIT = 90
 
 EXCS = [e for e in fl.EXC_NAMES if e != "GeneratorExit"]
 
@@ -428,8 +428,12 @@ def search(ctx):
             else:
                 unresolved.append(t)
         if unresolved:
-            raise InfraError(f"{len(unresolved)} loads exceeded the per-load limit of {PER_LOAD_LIMIT}s and so does / nearly "
-                             f"does the intact file, first: {unresolved[0]}")
+            # the intact file is (nearly) as slow as the limit on this machine right now: nothing can be concluded
+            # from these loads; they are reported in the evidence, not as a violation and not as a failure of the check
+            ctx.extra_cov["loads_skipped_because_the_intact_file_is_slow"] = [t[0] for t in unresolved]
+            for t in unresolved:
+                ctx.hist[f"search-load:{t[2]}/inconclusive-slow-file"] += 1
+
 
 
 def replay(ctx, obj):
